@@ -17,7 +17,7 @@ From Coq Require Import ZArith List Bool.
 From Tickit Require Import Csi VT XtermDefs XtermSpec XtermProofs.
 From Tickit Require Import RectDefs WinRectSet WinDefs WinSpec WinHist
   WinExposeProofs WinLogDisjoint WinFlushProofs WinScreenInv WinPreserve WinTermResize WinHistory WinC01Extra
-  WinRectSetProofs WinScrollDesc WinScrollRegion WinScrollFold WinScrollSpec WinScrollOps WinScrollInv WinHistoryFull WinReDefs WinReProofs WinReFlags WinReEstablish WinReExample WinReForest WinScrollXterm WinScrollXtermHist WinReFlush WinReFlushProofs WinReFlushSim WinFuelMono WinFuelTotal WinFuelScroll.
+  WinRectSetProofs WinScrollDesc WinScrollRegion WinScrollFold WinScrollSpec WinScrollOps WinScrollInv WinHistoryFull WinReDefs WinReProofs WinReFlags WinReEstablish WinReExample WinReForest WinScrollXterm WinScrollXtermHist WinReFlush WinReFlushProofs WinReFlushSim WinFuelMono WinFuelTotal WinFuelScroll WinFuelTotalScroll WinFuelTotalExample.
 From Tickit Require RBDefs RBSpec RBFlushDefs RBTermSim.
 From Tickit Require Import WinRBView WinEndToEnd WinEndToEndFinal.
 From Tickit Require WinInput WinInputProofs.
@@ -333,14 +333,70 @@ Proof. exact step_wf. Qed.
 Print Assumptions C01_fuel_monotone.
 
 (* ... for ALL operations, the three scrolls included, and every defect configuration: a run that
-   faults at no step ([run_nf]; implied by run_ok3) is the same run with more fuel.  (What is still
-   missing for a total theorem over histories with scrolls is the progress half: that some fuel
-   suffices for rs_sub_vis / scroll_region / shift_damage and the scroll_one loop.) *)
+   faults at no step ([run_nf]; implied by run_ok3) is the same run with more fuel.  (The progress
+   half for the scrolls -- some fuel suffices for rs_sub_vis / rs_clip / scroll_region /
+   shift_damage and the scroll_one loop -- is WinFuelTotalScroll.v, used below.) *)
 Theorem C01_run_fuel_monotone : forall cfg progs ops m f',
   run_nf cfg progs ops m -> (r_fuel (m_root m) <= f')%nat ->
   run cfg progs ops (m_with_fuel f' m) = m_with_fuel f' (run cfg progs ops m).
 Proof. exact run_fuel_mono_nf. Qed.
 Print Assumptions C01_run_fuel_monotone.
+
+(* TOTAL CORRECTNESS OVER THE WHOLE ALPHABET, the three scroll operations included (no
+   [fuel_alpha] hypothesis any more): progress of _scroll -- with enough fuel none of its loops
+   (the visible region minus children and siblings in front [rs_sub_vis], the clip to each
+   ancestor [rs_clip], the upward walk [scroll_region], the shift of the pending damage
+   [shift_damage], the per-rectangle loop [scroll_one] with its exposes) runs out, from the C05
+   termination theorems for add AND subtract -- under the scroll operations' own side condition
+   (visible windows have non-empty rectangles, part of step_side3). *)
+Theorem C01_scroll_progress : forall st tm id orig down rightw mask,
+  Inv (r_damage st) -> r_fault st = false -> vis_nonempty (r_tree st) ->
+  exists f0, r_fault (fst (fst (win_scroll no_defects (with_fuel f0 st) tm id orig down rightw mask))) = false.
+Proof. exact win_scroll_ex. Qed.
+Print Assumptions C01_scroll_progress.
+
+Theorem C01_step_progress_all : forall progs o m,
+  Inv (r_damage (m_root m)) -> r_fault (m_root m) = false -> step_side3 (m_root m) o ->
+  exists f0, r_fault (m_root (step no_defects progs o (m_with_fuel f0 m))) = false.
+Proof. exact step_ex_all. Qed.
+Print Assumptions C01_step_progress_all.
+
+(* for EVERY history (any operations, scrolls with any scroll oracle included) there exists an
+   amount of fuel -- and then every larger amount does -- with which the run faults nowhere and the
+   invariant of C01 holds at the end *)
+Theorem C01_history_total_all : forall progs ops nl nc orc,
+  (forall id, progs id = [DPaint]) -> 0 < nl -> 0 < nc ->
+  sides_along progs ops nl nc orc ->
+  exists fuel, forall f, (fuel <= f)%nat ->
+    r_fault (m_root (run no_defects progs ops (m_init_f f nl nc orc))) = false /\
+    MInv3 (run no_defects progs ops (m_init_f f nl nc orc)).
+Proof. exact history_total_c01_all. Qed.
+Print Assumptions C01_history_total_all.
+
+(* ... and when it ends with a flush every screen cell shows the composition *)
+Theorem C01_history_total_flushed_all : forall progs ops nl nc orc,
+  (forall id, progs id = [DPaint]) -> 0 < nl -> 0 < nc ->
+  sides_along progs (ops ++ [OFlush]) nl nc orc ->
+  exists fuel, forall f, (fuel <= f)%nat ->
+    r_fault (m_root (run no_defects progs (ops ++ [OFlush]) (m_init_f f nl nc orc))) = false /\
+    all_shown (run no_defects progs (ops ++ [OFlush]) (m_init_f f nl nc orc)).
+Proof. exact history_total_flushed_all. Qed.
+Print Assumptions C01_history_total_flushed_all.
+
+(* NON-VACUITY of [sides_along] for a history WITH a scroll: on a 4x6 terminal, create a visible
+   child, scroll it down by one line, flush -- the side conditions hold for every fuel, so the
+   total theorem applies to it (WinFuelTotalExample.v) *)
+Theorem C01_history_total_example_sides :
+  sides_along ex_progs ([ONew 1 0 (mkRect 1 1 2 3) false false false false; OScroll 1 1 0] ++ [OFlush]) 4 6 ex_orc.
+Proof. exact ex_sides. Qed.
+Print Assumptions C01_history_total_example_sides.
+
+Theorem C01_history_total_example :
+  exists fuel, forall f, (fuel <= f)%nat ->
+    r_fault (m_root (run no_defects ex_progs (ex_ops ++ [OFlush]) (m_init_f f 4 6 ex_orc))) = false /\
+    all_shown (run no_defects ex_progs (ex_ops ++ [OFlush]) (m_init_f f 4 6 ex_orc)).
+Proof. exact ex_flushed. Qed.
+Print Assumptions C01_history_total_example.
 
 (* ---- expose handlers that re-enter the window layer during the flush ----
    (tickit_window_expose / show / hide / raise / lower / raise_to_front / lower_to_back called
